@@ -20,13 +20,24 @@ def pinned_matnet_randomness(policy):
     the real torch). The library code itself is what runs."""
     import rl4co.models.nn.env_embeddings.init as init_mod
 
-    emb = None
-    for m in policy.modules():
-        if type(m).__name__ == "MatNetInitEmbedding":
-            emb = m
-    if emb is None:
+    embs = [m for m in policy.modules() if type(m).__name__ == "MatNetInitEmbedding"]
+    if not embs:
         yield
         return
+    if len(embs) > 1:  # one encoder per stage (multi-stage FFSP policy): pin each of them
+        with contextlib.ExitStack() as stack:
+            for e in embs:
+                stack.enter_context(_pin_one(e))
+            yield
+        return
+    with _pin_one(embs[0]):
+        yield
+
+
+@contextlib.contextmanager
+def _pin_one(emb):
+    import rl4co.models.nn.env_embeddings.init as init_mod
+
     orig_forward = emb.forward
 
     class Proxy:
@@ -63,7 +74,39 @@ def pinned_matnet_randomness(policy):
 DECODE_KW = dict(decode_type="greedy")
 
 
+class _Rec:
+    def __init__(self):
+        self.steps, self.hits, self.strategy = [], {"decoder": 0}, None
+
+
+def decode_multistage_ffsp(pol, env, td_in, tap=False):
+    """MultiStageFFSPPolicy has its own decode loop (one decoder per stage); margins for the float-flip guard are read from the
+    log-probs its stage decoders obtain from process_logits (all stages, conservative)."""
+    import rl4co.models.zoo.matnet.decoder as dmod
+
+    td = env.reset(td_in.clone())
+    rec = _Rec()
+    real = dmod.process_logits
+
+    def tapped(logits, mask=None, **kw):
+        lp = real(logits, mask, **kw)
+        rec.steps.append(dict(logits=lp.detach().reshape(lp.shape[0], -1).clone(), mask=None, done=None))
+        rec.hits["decoder"] += 1
+        return lp
+
+    if tap:
+        dmod.process_logits = tapped
+    try:
+        with torch.inference_mode():
+            out = pol(td, env, phase="test", num_starts=1, return_actions=True)
+    finally:
+        dmod.process_logits = real
+    return out, (rec if tap else None)
+
+
 def decode(pol, env, td_in, tap=False):
+    if type(pol).__name__ == "MultiStageFFSPPolicy":
+        return decode_multistage_ffsp(pol, env, td_in, tap)
     td = env.reset(td_in.clone())
     with torch.inference_mode():
         if tap:
@@ -155,7 +198,7 @@ def case(ctx, case):
         DECODE_KW = dict(decode_type="greedy", **case.get("decode_kw", {}))
         if case.get("decode_kw"):
             sig["decode"] = "greedy+" + "+".join(sorted(case["decode_kw"]))
-    with pinned_matnet_randomness(pol) if kind == "matnet" else contextlib.nullcontext():
+    with pinned_matnet_randomness(pol) if kind in ("matnet", "matnet_ffsp") else contextlib.nullcontext():
         # ---- solo references ---------------------------------------------------------------------
         refs = []
         for b in range(m):
@@ -181,7 +224,9 @@ def case(ctx, case):
             ctx.count(f"c14_ctx_{context}")
             a = out["actions"][pos]
             T = ref["a"].shape[0]
-            same = a.shape[0] >= T and torch.equal(a[:T], ref["a"]) and (a.shape[0] == T or bool((a[T:] == a[T - 1]).all() | (a[T:] == 0).all()))
+            # actions beyond the solo episode's length are padding of a finished row: one constant no-op (the last node, the depot,
+            # FFSP's "no job" index ...)
+            same = a.shape[0] >= T and torch.equal(a[:T], ref["a"]) and (a.shape[0] == T or bool((a[T:] == a[T]).all()))
             r = out["reward"][pos].reshape(-1)  # [1] or [paths] (MDAM returns one reward per decoder path)
             ll = out["log_likelihood"][pos].reshape(-1)
             def conditioning():
